@@ -545,6 +545,36 @@ fn c15_crash_after_reopen() {
     reopen_and_check::<Restarted>(n, &c, 3);
 }
 
+/// create; commit1; clean restart (real open); commit2 WITHOUT any append in between — crash
+/// anywhere in the second run.  After `open`, `alloc_end == free_offset`, so the head-set record
+/// of commit 2 is the write that makes `ensure_capacity` grow the file (fallocate + fsync) before
+/// the record is written: barrier 1 must still flush that record before the root is written.
+#[kani::proof]
+#[kani::unwind(50)]
+#[kani::stub(<StorageError as core::convert::From<buggy::Bug>>::from, no_bug_values)]
+#[kani::stub(aranya_libc::sys::unix::close, close_nop)]
+fn c15_crash_heads_only_commit_after_reopen() {
+    let mut c = [NO_COMMIT; 4];
+    let mut w = fresh_writer();
+    let a = do_append(&mut w, 7);
+    c[1] = do_commit(&mut w, 1, a);
+    core::mem::forget(w);
+    // Clean shutdown: the last recorded call is the fdatasync of commit 1.
+    assert!(vf::fs().trace[vf::fs().n - 1].kind == vf::K_FDATASYNC);
+    assert_falloc_fsync();
+    let disk = vf::fs().vol;
+    vf::restart_from(disk);
+    c[1].mark = 0;
+    let mut w = reopen_clean();
+    assert!(w.root.heads == Some(c[1].heads));
+    c[2] = do_commit(&mut w, 2, a);
+    core::mem::forget(w);
+    // The commit's own append grew the file: fallocate, fsync, then the record.
+    assert!(vf::fs().trace[0].kind == vf::K_FALLOC);
+    let n: usize = kani::any();
+    reopen_and_check::<Restarted>(n, &c, 2);
+}
+
 /// create; commit1; commit2 whose root write is torn (concrete cut) and the process dies;
 /// restart (real open: falls back to commit 1, the torn slot is the one to be rewritten);
 /// append; commit3 — crash anywhere in the second run.
